@@ -279,6 +279,9 @@ func (x *Exec) Run() {
 		st.assume(x.typeFacts(v, p.Type())...)
 		x.params[p.Name()] = binding{v, p.Type()}
 		x.watchParam(p.Name(), v, p.Type())
+		if isTypeParam(p.Type()) {
+			continue
+		}
 		switch p.Type().Underlying().(type) {
 		case *types.Pointer, *types.Interface, *types.Map, *types.Chan, *types.Signature:
 			st.assume(x.notFresh(v))
@@ -1118,6 +1121,9 @@ func (x *Exec) strConst(s string) smt.T {
 }
 
 func (x *Exec) zero(t types.Type) smt.T {
+	if isTypeParam(t) {
+		return x.ctx.Const("zero$"+typeName(t), x.sortOf(t))
+	}
 	switch u := t.Underlying().(type) {
 	case *types.Basic:
 		switch {
@@ -1175,6 +1181,9 @@ func (x *Exec) freshnessOf(st *State, r smt.T) smt.T {
 	sort.Strings(names)
 	for _, n := range names {
 		b := x.params[n]
+		if isTypeParam(b.typ) {
+			continue
+		}
 		switch b.typ.Underlying().(type) {
 		case *types.Pointer, *types.Interface, *types.Map, *types.Chan, *types.Signature:
 			fs = append(fs, smt.Not(smt.Eq(r, b.t)))
@@ -1283,7 +1292,10 @@ func (x *Exec) entryHeapAxiom(name, sort string, h smt.T) {
 	case el == smt.Int && (strings.Contains(name, "*") || x.heapHoldsRefs[name]) && idx == smt.Int:
 		x.axioms["nofresh:"+name] = "(assert (forall ((r!a Int)) (! (=> (not (fresh$ r!a)) (not (fresh$ (select " + h.S + " r!a)))) :pattern ((select " + h.S + " r!a)))))"
 	case el == SliceSort && idx == smt.Int:
-		x.axioms["nofresh:"+name] = "(assert (forall ((r!a Int)) (! (=> (not (fresh$ r!a)) (not (fresh$ (s.arr (select " + h.S + " r!a))))) :pattern ((select " + h.S + " r!a)))))"
+		sl := "(select " + h.S + " r!a)"
+		x.axioms["nofresh:"+name] = "(assert (forall ((r!a Int)) (! (=> (not (fresh$ r!a)) (not (fresh$ (s.arr " + sl + ")))) :pattern (" + sl + "))))\n" +
+			// every slice stored in the heap is well formed
+			"(assert (forall ((r!a Int)) (! (and (<= 0 (s.off " + sl + ")) (<= 0 (s.len " + sl + ")) (<= (s.len " + sl + ") (s.cap " + sl + ")) (<= 0 (s.arr " + sl + ")) (=> (= (s.arr " + sl + ") 0) (and (= (s.len " + sl + ") 0) (= (s.cap " + sl + ") 0)))) :pattern (" + sl + "))))"
 	case strings.HasPrefix(el, "(Array Int ") && strings.HasPrefix(name, "E$") && (elemSortOf(el) == smt.Int && x.heapHoldsRefs[name]):
 		x.axioms["nofresh:"+name] = "(assert (forall ((r!a Int) (i!a Int)) (! (=> (not (fresh$ r!a)) (not (fresh$ (select (select " + h.S + " r!a) i!a)))) :pattern ((select (select " + h.S + " r!a) i!a)))))"
 	}
@@ -1293,6 +1305,9 @@ func (x *Exec) structNotFresh(st *State, t types.Type, v smt.T) {
 	u := t.Underlying().(*types.Struct)
 	for i := 0; i < u.NumFields(); i++ {
 		ft := u.Field(i).Type()
+		if isTypeParam(ft) {
+			continue
+		}
 		switch ft.Underlying().(type) {
 		case *types.Pointer, *types.Interface, *types.Map, *types.Chan, *types.Signature:
 			st.assume(x.notFresh(x.structField(t, u, i, v)))
